@@ -82,16 +82,24 @@ impl Clone for BigUint {
 pub trait ToPrimitive {
     spec fn to_usize_spec(&self) -> Option<usize>;
     fn to_usize(&self) -> (r: Option<usize>) ensures r == self.to_usize_spec();
+    spec fn to_u64_spec(&self) -> Option<u64>;
+    fn to_u64(&self) -> (r: Option<u64>) ensures r == self.to_u64_spec();
 }
 impl ToPrimitive for u64 {
     open spec fn to_usize_spec(&self) -> Option<usize> { Some(*self as usize) }
     #[verifier::external_body]
     fn to_usize(&self) -> (r: Option<usize>) { unimplemented!() }
+    open spec fn to_u64_spec(&self) -> Option<u64> { Some(*self) }
+    #[verifier::external_body]
+    fn to_u64(&self) -> (r: Option<u64>) { unimplemented!() }
 }
 impl ToPrimitive for BigUint {
     open spec fn to_usize_spec(&self) -> Option<usize> { if bv(*self) <= usize::MAX { Some(bv(*self) as usize) } else { None } }
     #[verifier::external_body]
     fn to_usize(&self) -> (r: Option<usize>) { unimplemented!() }
+    open spec fn to_u64_spec(&self) -> Option<u64> { if bv(*self) <= u64::MAX { Some(bv(*self) as u64) } else { None } }
+    #[verifier::external_body]
+    fn to_u64(&self) -> (r: Option<u64>) { unimplemented!() }
 }
 
 impl BigUint {
